@@ -165,3 +165,32 @@ Proof.
   rewrite Hw, Hn in Hz. exact Hz.
 Qed.
 
+
+(* ---------- near-miss names as a CLASS: every table name has the shape (optional mass number)(letters),
+   so a string of any other shape — a blank, newline, comma, sign or other foreign character anywhere
+   (before, after or inside a valid name), letters followed by digits ("He3", "H2"), digits only, the empty
+   string — is in no first column and is therefore rejected by both entry points *)
+Lemma element_is_nuclide_name s : is_element_name s = true -> is_nuclide_name s = true.
+Proof.
+  intros E. unfold is_nuclide_name, element_symbol.
+  assert (drop_digits s = s) as ->; [|assumption].
+  unfold is_element_name in E. apply andb_true_iff in E as [_ E]. apply drop_digits_alpha; assumption.
+Qed.
+Lemma table_names_are_nuclide_names s :
+  In s (names scat_rows) \/ In s (names weight_rows) \/ In s (names mass_rows) -> is_nuclide_name s = true.
+Proof.
+  unfold names. intros [H|[H|H]]; apply in_map_iff in H as (r & <- & Hr).
+  - exact (proj1 (forallb_forall _ _) scat_names_wf _ Hr).
+  - apply element_is_nuclide_name. exact (proj1 (forallb_forall _ _) weight_names_wf _ Hr).
+  - pose proof (proj1 (forallb_forall _ _) mass_names_wf _ Hr) as H. cbv beta in H.
+    apply andb_true_iff in H as [H _]. unfold is_isotope_name in H. apply andb_true_iff in H as [H _]. exact H.
+Qed.
+Lemma malformed_name_rejected s :
+  is_nuclide_name s = false -> scat_lookup s = Err ValueError /\ exists e, atom_lookup s = Err e.
+Proof.
+  intros E. split.
+  - apply scat_reject. intros H. rewrite (table_names_are_nuclide_names s (or_introl H)) in E. discriminate.
+  - apply atom_reject_tie; intros H.
+    + rewrite (table_names_are_nuclide_names s (or_intror (or_introl H))) in E. discriminate.
+    + rewrite (table_names_are_nuclide_names s (or_intror (or_intror H))) in E. discriminate.
+Qed.
